@@ -27,7 +27,8 @@ fn s(v: &Value) -> String {
 }
 
 pub fn build_text(c: &Value) -> String {
-    let nl = if c["crlf"].as_bool().unwrap_or(false) { "\r\n" } else { "\n" };
+    let ending = c["ending"].as_str().unwrap_or(if c["crlf"].as_bool().unwrap_or(false) { "crlf" } else { "lf" }).to_string();
+    let link_line = c["link_line"].as_u64().unwrap_or(0) as usize;
     let mut lines: Vec<String> = vec![];
     let lead = c["lead"].as_array().cloned().unwrap_or_default();
     for l in lead.iter() {
@@ -43,8 +44,17 @@ pub fn build_text(c: &Value) -> String {
     lines.push("[r](2)".into());
     lines.push(String::new());
     lines.push("- item [i](2)".into());
-    let mut t = lines.join(nl);
-    t.push_str(nl);
+    let mut t = String::new();
+    for (i, l) in lines.iter().enumerate() {
+        t.push_str(l);
+        let crlf = match ending.as_str() {
+            "crlf" => true,
+            "crlf-lf" => i < link_line,
+            "lf-crlf" => i >= link_line,
+            _ => false,
+        };
+        t.push_str(if crlf { "\r\n" } else { "\n" });
+    }
     t
 }
 
